@@ -135,6 +135,15 @@ def _reader_unit(fname, prefix, with_path, expects_list):
                          or (out.returned and isinstance(out.value, Obj) and out.value.fields.get("_name") is name))
             V.ensure("post/cdxml:supported", z3.Implies(iscd, z3.BoolVal(not out.raised(I, "ValueError"))))
             V.ensure("post/cdxml:name-honoured", z3.Implies(iscd, z3.BoolVal(bool(uses_name) or out.kind == "raise")))
+            if fname == "load" and out.returned:
+                # which fragment: without a key the FIRST DRAWN fragment, parsed under the caller's name; with a key, the labelled one
+                names = [c[1] for c in cl]
+                if key is None:
+                    shape = ("_parse_fragment" in names and "CDXMLFile.__getitem__" not in names
+                             and any(c[1] == "_parse_fragment" and len(c[2]) >= 2 and c[2][1] == Opaque("obj:frag0") and dict(c[3]).get("name") is name for c in cl))
+                else:
+                    shape = "CDXMLFile.__getitem__" in names and any(c[1] == "CDXMLFile.__getitem__" and any(x is key for x in c[2]) for c in cl)
+                V.ensure("post/cdxml:load-takes-the-first-drawn-fragment-or-the-labelled-one", z3.Implies(iscd, z3.BoolVal(bool(shape))))
             if fname == "load_all" and key is None:
                 # like the xyz / mol2 branches: a list (indexable, re-iterable, with a length), one entry per drawn fragment
                 V.ensure("post/cdxml:load_all-returns-a-list-with-one-entry-per-fragment",
